@@ -331,8 +331,32 @@ Definition pool_usd (assets : list ainfo) (x : pool) : option Z :=
 Definition priced (assets : list ainfo) (op : Z) (ps : list pool) : bool :=
   forallb (fun x => negb (p_op x =? op) || match pool_usd assets x with Some _ => true | None => false end) ps.
 
-Definition value_of (assets : list ainfo) (op : Z) (ps : list pool) : Z :=
+(* what the code sums: pool amount + the pool's PendingUndelegationAmount FIGURE *)
+Definition value_of_pool (assets : list ainfo) (op : Z) (ps : list pool) : Z :=
   zsum (map (fun x => if p_op x =? op then match pool_usd assets x with Some v => v | None => 0 end else 0) ps).
+
+(* what the statement means by "including unbonding stake": the operator's LIVE pending undelegation records of that asset
+   (sum of their Amount, the basis the slash is measured on), not a stored figure that may have drifted *)
+Definition live_pending (rs : list urec) (op a : Z) : Z :=
+  zsum (map (fun r => if (u_op r =? op) && (u_asset r =? a) then u_amount r else 0) rs).
+
+Definition pool_usd_live (assets : list ainfo) (rs : list urec) (x : pool) : option Z :=
+  match find_asset assets (p_asset x) with
+  | Some i => match a_pclass i with
+              | PcMissing => None
+              | _ => if a_known i
+                     then Some (usd (p_total x + live_pending rs (p_op x) (p_asset x)) (a_price i) (a_dec i) (a_pdec i))
+                     else None
+              end
+  | None => None
+  end.
+
+Definition value_of (assets : list ainfo) (op : Z) (ps : list pool) (rs : list urec) : Z :=
+  zsum (map (fun x => if p_op x =? op then match pool_usd_live assets rs x with Some v => v | None => 0 end else 0) ps).
+
+(* the pool figure agrees with the live records (the aggregate invariant of C03) *)
+Definition pending_agrees (s : st) : bool :=
+  forallb (fun x => p_pending x =? live_pending (s_recs s) (p_op x) (p_asset x)) (s_pools s).
 
 (* the proportion of the statement: power * factor / current value, capped at 1 *)
 Definition proportion (power f value : Z) : Z := Z.min P (dec_quo (power * f) value).
@@ -413,7 +437,7 @@ Definition env_sane (e : env) : bool :=
 (* the executed-slash clause of the statement *)
 Definition executed_ok (s : st) (e : env) (q : sprm) (f : Z) (s' : st) : bool :=
   let op := q_op q in
-  let value := value_of (v_assets e) op (s_pools s) in
+  let value := value_of (v_assets e) op (s_pools s) (s_recs s) in
   let p := proportion (q_power q) f value in
   priced (v_assets e) op (s_pools s) && (0 <? value) && (0 <=? p) && (p <=? P) &&
   forall2b (pool_ok p op (s_slists s)) (s_pools s) (s_pools s') &&
